@@ -514,12 +514,13 @@ func (fc *FnCtx) invoke(fr *Frame, st *State, reach string, call ssa.CallInstruc
 	resT := com.Signature().Results()
 	iname := types.TypeString(com.Value.Type(), nil) + "." + m.Name()
 	fc.oblige(fr, "nil", fc.exprAt(fr, call.Pos(), isCall), reach, tNot(tEq(recv.Tag, "0")), false, nil)
+	// a written contract for the method replaces the built-in environment fact
+	if con := fc.eng.contracts[iname]; con != nil {
+		return fc.callByContractIface(fr, st, reach, con, recv, args, call)
+	}
 	if h, ok := envInvoke[iname]; ok {
 		fc.assumption("T3/T4 environment contract: " + iname)
 		return h(fc, fr, st, reach, recv, args, call)
-	}
-	if con := fc.eng.contracts[iname]; con != nil {
-		return fc.callByContractIface(fr, st, reach, con, recv, args, call)
 	}
 	if fc.eng.benignIface(com.Value.Type(), m.Name()) {
 		fc.assumption("T4 benign interface (result havocked, no effect on tchannel objects): " + iname)
